@@ -82,6 +82,8 @@ def coq_qty(q):
 def conc_parse(c):
     """exact value of a concentration document {'v','np','nb','dv'(optional),'dp','db'} or {'s': 'M'|'m', 'v', 'np'}
     as (value, num base, den base) -- SI meaning, computed here independently of the implementation"""
+    if 'pct' in c:       # per cent: v/v and w/w are plain fractions, w/v is grams per 100 mL (the shipped default_weight_volume_units, g/mL)
+        return {'v/v': (F(c['v']) / 100, 'L', 'L'), 'w/w': (F(c['v']) / 100, 'g', 'g'), 'w/v': (F(c['v']) * 10, 'g', 'L')}[c['pct']]
     if 's' in c:
         if c['s'] == 'M':
             return F(c['v']) * PFX[c.get('np', '')][1], 'mol', 'L'
@@ -93,6 +95,8 @@ def conc_parse(c):
 
 
 def conc_str(c):
+    if 'pct' in c:
+        return f"{c['v']} %{c['pct']}"
     if 's' in c:
         return f"{c['v']} {c.get('np', '')}{c['s']}"
     den = f"{c['dv']} {c['dp']}{c['db']}" if c.get('dv') is not None else f"{c['dp']}{c['db']}"
@@ -146,6 +150,7 @@ def region_cells(r, ncols):
 
 
 # ------------------------------------------------------------------ executing on the implementation
+TABLES = False            # C19: every container is displayed (Container.dataframe) as soon as it is returned; the table is carried in the dump
 OBSERVE_EACH = False      # C10: call the observers on every value as soon as it is returned (values derived later must not see stale answers)
 
 
@@ -304,9 +309,28 @@ class Impl:
         return {'t': 'c', 'name': c.name, 'cont': cont, 'order': [getattr(self, 'bykey', {}).get((s.name, s.specific_activity, s.mol_weight, s.density), self.byname.get(s.name, -1)) for s in c.contents],
                 'vol': F(c.volume), 'max': mx, 'instr': getattr(c, 'instructions', '') or ''}
 
+    def table_of(self, c):
+        """the container's own table (Container.dataframe, what printing it shows): per substance the cells Volume / Mass / Moles / U"""
+        try:
+            df = c.dataframe()
+            if len({s.name for s in c.contents}) != len(c.contents):
+                return None         # namesakes share a row label in the library's table: not read
+            rows = {}
+            for s in c.contents:
+                key = getattr(self, 'bykey', {}).get((s.name, s.specific_activity, s.mol_weight, s.density), self.byname.get(s.name, -1))
+                cells = df.loc[s.name]
+                if getattr(cells, 'ndim', 1) == 1:          # (namesakes share a row label: not read)
+                    rows[key] = [str(x) for x in cells]
+            rows['Total'] = [str(x) for x in df.loc['Total']]
+            return rows
+        except Exception as e:  # noqa
+            return {'error': f"{type(e).__name__}: {e}"[:160]}
+
     def dump(self, o):
         from pyplate import Container
         if isinstance(o, Container):
+            if TABLES:
+                return dict(self.dump_container(o), table=self.table_of(o))
             return self.dump_container(o)
         return {'t': 'p', 'name': o.name, 'rows': o.n_rows, 'cols': o.n_columns,
                 'wells': [self.dump_container(w) for w in o.wells.flatten()]}
